@@ -179,7 +179,12 @@ def h_pipe(cfg):
             gens.append(mk_gen(env, 'G0', n, sort, 0, L0) + (L0,))
             elements = [('c08.port', [L0], [L1], {'port': port}), ('c08.wire', [L1], [L_sink], {'loss_ok': bool(cfg.get('loss'))})]
         elif pipe == 'fanin-sched':
-            sched = make_sched(env, cfg['kind'], 8, {0: 1, 1: 2} if cfg['kind'] != 'RR' else {0: 1, 1: 1})
+            if cfg.get('classmap'):
+                # several flows share one class (flow ids differ from the class id)
+                cm = {0: 7, 1: 7}
+                sched = make_sched(env, cfg['kind'], 8, {7: 1}, flow2class=lambda f: cm[f])
+            else:
+                sched = make_sched(env, cfg['kind'], 8, {0: 1, 1: 2} if cfg['kind'] != 'RR' else {0: 1, 1: 1})
             port = Port(env, 64, None, False, 'p')
             L0 = Link(env, 'g0->sched', sched)
             L1 = Link(env, 'g1->sched', sched)
@@ -279,12 +284,13 @@ HARNESSES = {'pipe': h_pipe}
 
 
 def VIOL_KEY(cfg):
-    return '%s/%s%s' % (cfg['pipe'], cfg.get('kind', ''), cfg.get('server', ''))
+    return '%s/%s%s%s' % (cfg['pipe'], cfg.get('kind', ''), cfg.get('server', ''), '/classmap' if cfg.get('classmap') else '')
 
 
 def jobs(tier, seed):
     js = []
-    n = 2 if tier == 'quick' else 3
+    n = 2
+    big = 2 if tier == 'quick' else 3      # only the cheap pipelines get the longer workload in the thorough tier
     modes = [[True, True, True, True], [True, False, True, False], [False, True, True, True], [True, True, False, False]]
     mi = [0]
 
@@ -295,16 +301,21 @@ def jobs(tier, seed):
         mi[0] += 1
         js.append({'harness': 'pipe', 'cfg': cfg, 'weight': w, 'opts': opts})
 
-    add({'pipe': 'port-wire', 'qlimit': 'sym', 'loss': None, 'n': n + 1}, 60)
+    add({'pipe': 'port-wire', 'qlimit': 'sym', 'loss': None, 'n': big + 1}, 60)
     add({'pipe': 'port-wire', 'qlimit': None, 'loss': 0.5, 'sorts': 'int'}, 40)
     for kind in ('SP', 'WFQ', 'VC', 'DRR', 'RR', 'WRR'):
-        c = {'pipe': 'fanin-sched', 'kind': kind, 'n1': 1}
+        c = {'pipe': 'fanin-sched', 'kind': kind, 'n1': 1, 'n': big if kind in ('SP', 'RR', 'WRR', 'VC') else 2}
         if kind == 'WFQ':
             c['float_inexact'] = True
         if kind == 'DRR' and tier == 'quick':
             c['smax'] = 1600
         add(c, 50)
-    add({'pipe': 'fanout-demux'}, 40)
+    for kind in ('SP', 'WFQ', 'VC', 'DRR'):
+        c = {'pipe': 'fanin-sched', 'kind': kind, 'n1': 1, 'classmap': True, 'sorts': 'int'}
+        if kind == 'DRR':
+            c['smax'] = 1600 if tier == 'quick' else 3200
+        add(c, 50)
+    add({'pipe': 'fanout-demux', 'n': big}, 40)
     for server in ('simple', 'SP', 'WFQ', 'DRR', 'VirtualClock'):
         c = {'pipe': 'switch', 'server': server}
         if server == 'WFQ':
@@ -317,7 +328,7 @@ def jobs(tier, seed):
         add({'pipe': 'tb-sp', 'peak': 64, 'sorts': 'int'}, 60)
     else:
         add({'pipe': 'tb-sp', 'peak': 64, 'sorts': 'int', 'n': 1}, 60)
-    add({'pipe': 'trtb-wire', 'loss': None}, 40)
+    add({'pipe': 'trtb-wire', 'loss': None, 'n': big}, 40)
     add({'pipe': 'trtb-wire', 'loss': 0.5, 'sorts': 'int'}, 40)
     return js
 
@@ -333,7 +344,7 @@ META = {
     'bounds': {'quick': 'pipelines gen->port->wire->sink, {gen,gen}->scheduler(6 kinds)->port->sink, gens->FlowDemux->{port,port}->sink, '
                         'gens->Simple/FairPacketSwitch(SP,WFQ,DRR,VC)->sink, gen->TokenBucket->SP->sink, gen->TwoRateTokenBucket->wire->sink; '
                         '2 (+1) packets per main generator; all generator gaps/sizes, wire delays, loss draws symbolic; PacketSink in 4 recording modes',
-               'thorough': '3 (+1) packets per main generator'},
+               'thorough': '3 (+1) packets per main generator for the SP/RR/WRR/VC fan-in, demux, port-wire and two-rate pipelines, 2 (+1) elsewhere'},
     'assumptions': ['DistPacketGenerator arrival_dist returns +inf after the n-th draw (the run is driven until the agenda holds only that)'],
     'stubs': ['arrival_dist / size_dist / delay_dist -> symbolic draws', 'onl.netdev.wire.random.uniform -> symbolic draw'],
     'outside': ['ProxyPacketGenerator, ProxySink, UDPDevice (real sockets)', 'longer workloads / deeper pipelines'],
